@@ -346,7 +346,7 @@ impl QueryTask {
             } else {
                 self.convert_to_output_format(&full_result, &state.explains)
             };
-            self.sender.send(Ok(final_result));
+            self.sender.send(final_result);
             self.completed.store(true, Ordering::SeqCst);
         }
     }
@@ -380,7 +380,7 @@ impl QueryTask {
         &self,
         full_result: &BatchResult,
         explains: &[String],
-    ) -> QueryOutput {
+    ) -> Result<QueryOutput, QueryError> {
         let lo = self
             .final_pass
             .as_ref()
@@ -389,7 +389,8 @@ impl QueryTask {
         let limit = lo.limit as usize;
         let offset = cmp::min(lo.offset as usize, full_result.len());
         let count = cmp::min(limit, full_result.len().saturating_sub(offset));
-        full_result.validate().unwrap();
+        // e.g. a constant next to a column in the select list yields columns of different lengths
+        full_result.validate()?;
 
         let mut rows = None;
         if self.rowformat {
@@ -424,7 +425,7 @@ impl QueryTask {
             columns.push((colname.clone(), column));
         }
 
-        QueryOutput {
+        Ok(QueryOutput {
             colnames: self.output_colnames.clone(),
             rows,
             columns,
@@ -435,7 +436,7 @@ impl QueryTask {
                 files_opened: self.perf_counter.files_opened(),
                 disk_read_bytes: self.perf_counter.disk_read_bytes(),
             },
-        }
+        })
     }
 
     fn combined_limit(&self) -> usize {
